@@ -1,49 +1,42 @@
-(* C01/Proofs7.v — block_on_overflow: start-up recovery can park for ever (finding C01-RECOVERY-BLOCKS).
-   The re-put of an in-flight request goes through putInternal; with blockOnOverflow and a full queue it
-   waits on hasMoreSpace while no consumer is running yet.  A parked Start makes no storage call, so
-   the durability invariant is untouched (pq_durable_or_final holds for every configuration), but no
-   later incarnation ever hands anything off. *)
+(* C01/Proofs7.v — (1) documentation of the repaired finding C01-RECOVERY-BLOCKS against a separately named
+   definition of the OLD start-up recovery; (2) itemDispatchingFinish under storage errors. *)
 From Verif Require Import Common.Base C01.Model C01.Spec C01.Proofs1 C01.Proofs2 C01.Proofs3.
 
-Lemma parked_incarnation c st sc :
-  run_act None st (initClient c) = (st, None, None) ->
-  incarnation c st sc None = mkIrun st None [] [] true 0.
-Proof. intros H. unfold incarnation. now rewrite H. Qed.
+(* the recovery loop BEFORE commit 7592c5c1e: the re-put went through putInternal with the configured
+   block_on_overflow and so waited for space (Block) while no consumer was running *)
+Fixpoint reenqueue_old (c : cfg) (v : vol) (ivs : list (N * option val)) (dels : list N) (errc : nat)
+  : act (vol * nat) :=
+  match ivs with
+  | [] => Call (map DelItem dels) (fun _ => Done (v, errc))
+  | (i, Some (VBody r)) :: t =>
+      if would_wait c v r then Block
+      else
+      bind (putInternal c v r) (fun x =>
+        if snd x then reenqueue_old c (fst x) t (dels ++ [i]) errc
+        else reenqueue_old c (set_cdi (fst x) (cdi (fst x) ++ [i])) t dels (S errc))
+  | (i, _) :: t => reenqueue_old c v t (dels ++ [i]) errc
+  end.
 
-Lemma parked_for_ever c st n : run_act None st (initClient c) = (st, None, None) ->
-  forall k, run_history c st (drains n k) = (st, []).
-Proof.
-  intros H. induction k as [|k IH]; [reflexivity|].
-  cbn [drains repeat run_history]. fold (drains n k).
-  rewrite (parked_incarnation c st _ H). cbn [i_store i_events]. now rewrite IH.
-Qed.
+Definition initClient_old (c : cfg) : act (vol * nat) :=
+  bind (initStorage c) (fun v =>
+    Call [GetDi] (fun rs =>
+      match res_arr rs 0 with
+      | None => Done (v, O)
+      | Some [] => Done (v, O)
+      | Some di => Call (map GetItem di) (fun vals => reenqueue_old c v (combine di vals) [] O)
+      end)).
 
 Definition cfg_block : cfg := mkCfg 2 true true.
 Definition h_block : history :=
   [ ([Offer 90; Read; Complete 0 OOk], None); ([Offer 1; Read; Offer 2; Offer 3], None) ].
 
-Lemma fits_cfg_block : fits cfg_block.
-Proof. intros r. unfold sizeof, cfg_block. cbn. lia. Qed.
-
-Lemma at_least_once_blocking_refuted_l :
-  exists c h r, blockOnOverflow c = true /\ fits c /\
-    In r (accepted (snd (run_history c store0 h))) /\
-    forall n k, ~ In r (handoffs (snd (run_history c store0 (h ++ drains n k)))).
-Proof.
-  exists cfg_block, h_block, 2%N. split; [reflexivity|]. split; [exact fits_cfg_block|]. split.
-  - vm_compute. auto.
-  - intros n k. rewrite run_history_app. cbn [snd].
-    assert (P : run_act None (fst (run_history cfg_block store0 h_block)) (initClient cfg_block) =
-                (fst (run_history cfg_block store0 h_block), None, None)) by (vm_compute; reflexivity).
-    rewrite (parked_for_ever cfg_block _ n P k). cbn [snd]. rewrite app_nil_r.
-    vm_compute. intros [H|[H|[]]]; discriminate.
-Qed.
-
-(* a parked Start changes nothing: same store, no event *)
-Lemma parked_changes_nothing c st sc :
-  run_act None st (initClient c) = (st, None, None) ->
-  i_store (incarnation c st sc None) = st /\ i_events (incarnation c st sc None) = [].
-Proof. intros H. rewrite (parked_incarnation c st sc H). auto. Qed.
+(* capacity 2, request 1 in flight, queue refilled with 2 and 3: the OLD recovery parks (no result, store
+   unchanged); the CURRENT one completes, refuses the re-put and keeps request 1 stored and listed *)
+Lemma old_recovery_parked_now_completes_l :
+  let st := fst (run_history cfg_block store0 h_block) in
+  run_act None st (initClient_old cfg_block) = (st, None, None) /\
+  (exists st1 v, run_act None st (initClient cfg_block) = (st1, None, Some (v, 1%nat)) /\ cdi v = [1%N]).
+Proof. vm_compute. split; [reflexivity|]. eexists. eexists. split; reflexivity. Qed.
 
 (* ---- itemDispatchingFinish under storage errors: whichever of its (up to three) batches fail, the
         crash invariant is kept — a failure can leave a stale "di" entry or a body that will be delivered
